@@ -31,7 +31,7 @@ def n_runs(tier):
 
 
 def gen(rng, index, tier):
-    plan = c02.gen(rng, index, tier)
+    plan = c02.gen(rng, index, tier, prop_id="C18")
     plan["faults"] = []
     plan["rate"] = rng.choice([None, 1, 2, 2, 3, 3, 10, 100])
     r = rng.random()
